@@ -5,7 +5,7 @@ from core import hx, unhx
 import props.c08 as c08
 
 LEAN_MODULE = 'QM.Props.C08'
-THEOREMS = ['Refine.C08_process_refines', 'Refine.C10_independent', 'Refine.C09_members_order_free', 'Cv.C08_priorities']
+THEOREMS = ['Refine.C08_process_refines', 'Refine.C10_independent', 'Cv.C08_process_concrete', 'Cv.C10_independent_concrete', 'Cv.C08_order_irrelevant', 'Cv.sys_local', 'Cv.convOut_congr', 'Refine.C09_members_order_free', 'Cv.C08_priorities']
 ASSUMPTIONS = c08.ASSUMPTIONS + [
     'discovery, the per-file error policy (continue), the exit status and the logged paths are runtime behaviour of main.rs; the model of the whole run (Cv.runTree, QM/Fs.lean: search dirs, first-seen-wins, drop-ins, priority sort, loop) is compared with real --dry-run runs of the binary on generated trees, and the property is checked on pairs of real runs',
     'known finding KF-C10-1: two units whose generated service file names coincide overwrite each other on disk; statements are per unit (what --dry-run prints)',
